@@ -2,6 +2,8 @@ import SurfModel.Proto
 import SurfModel.IOQueue
 import SurfModel.PollWrite
 def main : IO Unit := SurfModel.Proto.serve fun
-  | "c16" :: "q" :: rest => SurfModel.IOQueue.handle ("q" :: rest)
+  | "c16" :: "qa" :: rest => SurfModel.IOQueue.handle ("qa" :: rest)
+  | "c16" :: "qr" :: rest => SurfModel.IOQueue.handle ("qr" :: rest)
   | "c16" :: "t" :: rest => SurfModel.PollWrite.handle ("t" :: rest)
+  | "c16" :: "te" :: rest => SurfModel.PollWrite.handle ("te" :: rest)
   | _ => "bad-op"
